@@ -63,6 +63,11 @@ func builtinFunctionToString(call FunctionCall) Value {
 	}
 }
 
+// maxArgumentListLength is the longest argument list that Function.prototype.apply builds from an
+// array-like (the limit of SpiderMonkey; V8 and JavaScriptCore stop near 65536 and 125000). The
+// list costs 24 bytes per argument, the arguments object of a script function about 270 more.
+const maxArgumentListLength = 500000
+
 func builtinFunctionApply(call FunctionCall) Value {
 	if !call.This.isCallable() {
 		panic(call.runtime.panicTypeError("Function.apply %q is not callable", call.This))
@@ -84,6 +89,11 @@ func builtinFunctionApply(call FunctionCall) Value {
 	arrayObject := argumentList.object()
 	thisObject := call.thisObject()
 	length := int64(toUint32(arrayObject.get(propertyLength)))
+	if length > maxArgumentListLength {
+		// 15.3.4.3 allows a limit on the number of arguments; without one {length: -1} is a list
+		// of 4294967295 values, 100 GB that the Go runtime cannot allocate: it ends the process.
+		panic(call.runtime.panicRangeError("too many arguments"))
+	}
 	valueArray := make([]Value, length)
 	for index := range length {
 		valueArray[index] = arrayObject.get(arrayIndexToString(index))
